@@ -314,8 +314,15 @@ static Outcome run_rw(const Case &c, int mode) {
     });
     if (x.failed) break;
     if (rc == 1000) {
-      // peer silent forever: the application gives up -> cancel, which must be clean
-      for (size_t i = 0; i < g.next; i++) {
+      // the loop would sleep for ever.  Either the peer is silent (then the application gives up -> cancel, which must be clean), or the
+      // descriptor IS ready for a pending request and nobody is waiting for it any more: the request has been lost
+      short rdy = K().ready(*K().get(g.fd));
+      for (size_t i = 0; i < g.next && !x.failed; i++) {
+        Req *q = g.reqs[i].get();
+        if (!q->done && (rdy & ((q->is_write ? POLLOUT : POLLIN) | POLLERR | POLLHUP)))
+          x.fail("request-lost", std::string("a pending network_") + (q->is_write ? "write" : "read") + " is no longer being waited for: the descriptor is ready, the event loop would sleep for ever");
+      }
+      for (size_t i = 0; i < g.next && !x.failed; i++) {
         Req *q = g.reqs[i].get();
         if (!q->done) {
           if (q->timer) {
